@@ -98,6 +98,20 @@ impl MemServer {
 		RawWs::handshake(client, "localhost", "/").await
 	}
 
+	/// Open a WebSocket connection and also return a future that resolves when the server has closed the session
+	/// (the connection's background task ended).
+	pub async fn ws_session(&self) -> Result<(RawWs, std::pin::Pin<Box<dyn std::future::Future<Output = ()> + Send>>), WsConnectError> {
+		let (client, server) = tokio::io::duplex(self.duplex_capacity);
+		let mut svc = self.service();
+		let closed = Box::pin(svc.on_session_closed());
+		let stop = self.stop_handle.clone();
+		tokio::spawn(async move {
+			let _ = jsonrpsee_server::serve_with_graceful_shutdown(server, svc, stop.shutdown()).await;
+		});
+		let ws = RawWs::handshake(client, "localhost", "/").await?;
+		Ok((ws, closed))
+	}
+
 	/// One HTTP request directly on the tower service (no hyper connection in between).
 	pub async fn http<B>(&self, req: http::Request<B>) -> HttpReply
 	where
